@@ -6,8 +6,8 @@ import oracle as O
 PID = "C05"
 THEOREMS = ["PauLie.C05.validSeq_iff", "PauLie.C05.validSeq_sound", "PauLie.C05.nestedPublic_matrix",
             "PauLie.C05.nestedCommutatorResult_matrix", "PauLie.C05.orientation", "PauLie.C05.C05_refuted", "PauLie.C05.C05_refuted_zero",
-            "PauLie.C05.C05_refuted_detail", "PauLie.C05.observed_YIY", "PauLie.C05.observed_IIX", "PauLie.C07.universalSet_ok"]
-IMPORTS = ["PauLieVerif.Properties.C05"]
+            "PauLie.C05.C05_refuted_detail", "PauLie.C05.observed_YIY", "PauLie.C05.observed_IIX", "PauLie.C07.universalSet_ok"] + SEARCH_THEOREMS_C05
+IMPORTS = ["PauLieVerif.Properties.C05", "PauLieVerif.Properties.C05Search"]
 
 # the literals of Properties/C05.lean (Compiler.observedReturns): the implementation must still return exactly these
 WITNESSES = ["witness 3 2 YIY", "witness 3 2 IIX"]
@@ -17,10 +17,12 @@ def rs(rng, n):
 
 def why_of(line, kind, detail, out):
     N, k, t = parse_compile_line(line)
-    return (f"kind={kind}; branch={branch(k, t)}; compile_target({t}, k_left={k}) returned {out[4:][:160]} which the verified "
+    return (f"kind={kind}; branch={branch(k, t)}; model-return={model_branch(line)}; compile_target({t}, k_left={k}) returned {out[4:][:160]} which the verified "
             f"validator rejects [{detail}]")
 
 def batch_oracle_compile(lines, outs):
+    IMPL.update(zip(lines, outs))
+    modelx(lines)
     js = judge(lines, outs)
     res = []
     for l, o, (kind, detail) in zip(lines, outs, js):
@@ -31,11 +33,13 @@ def batch_oracle_compile(lines, outs):
     return res
 
 def known_match(stream, line, why):
+    if line.startswith("ccompile "):
+        return ccompile_known(PID, line, why)
     if not line.startswith("compile ") or not why.startswith("kind="):
         return None
     N, k, t = parse_compile_line(line)
     kind = why[5:].split(";")[0]
-    return signature(PID, N, k, t, kind)
+    return signature(PID, N, k, t, kind, line)
 
 def sym_nested(pub):
     """independent symbolic evaluation on (x,z) bitmasks: [A_1,[A_2,[...,A_n]]] -> text"""
@@ -141,12 +145,13 @@ def build_streams(rng, tier):
     h = impl_compiler.handle
     corpus = corpus_lines(PID)
     ex, smp = compile_lines(rng, tier)
+    modelx(ex + smp + [l for l in corpus if l.startswith("compile ")])
     def tag(l, o):
-        return "returned" if o.startswith("seq=") else o
+        return (model_branch(l) + ":returned") if o.startswith("seq=") else o
     def tagc(l, o):
         t = l.split(" ")[0]
         return t + ":" + ("None" if o == "None" else ("err" if o.startswith("!") else ("T" if "valid=T" in o else ("F" if "valid=F" in o else "str"))))
-    kw = dict(batch_oracle=batch_oracle_compile, shrink=shrink_compile, tag=tag, model=False,
+    kw = dict(batch_oracle=batch_oracle_compile, shrink=shrink_compile, tag=tag, model=True,
               nontrivial=lambda l, o: o.startswith("seq=") and "," in o)
     return [
         Stream("corpus-model", [l for l in corpus if not l.startswith("compile ")], h, oracle_corr, tag=tagc),
@@ -157,9 +162,23 @@ def build_streams(rng, tier):
         Stream("malformed", malformed_lines(rng, tier), h, oracle_corr, tag=tagc),
         Stream("compile-exhaustive", ex, h, **kw),
         Stream("compile-sampled", smp, h, **kw),
+        Stream("class-API-object-reuse", ccompile_lines(rng, tier), h, batch_oracle=ccompile_oracle(PID), shrink=shrink_ccompile, model=True,
+               tag=lambda l, o: "reuse:" + ("returned" if all(x.startswith("seq=") for x in o.split("|")) else "some-raise"),
+               nontrivial=lambda l, o: True),
+        Stream("listed-failures-reproduced-by-model", listed_lines(tier), listed_kind, None, tag=lambda l, o: "listed:" + o),
+        Stream("search-helpers", helper_lines(rng, tier), h, None, tag=lambda l, o: l.split(" ")[0] + ":" + ("raise" if o.startswith("!") else ("empty" if o in ("-", "None") else "result")),
+               nontrivial=lambda l, o: not o.startswith("!")),
     ]
 
-RULE = ("compile_target run on ALL 4^N-1 targets for N<=4 (thorough N<=5), every 2<=k<N, plus seeded samples at N=5 (quick) and 6<=N<=8 "
+RULE = ("CLASS API with object reuse (stream class-API-object-reuse): one OptimalPauliCompiler object compiles 2-4 targets in a row (repeats, consecutive "
+        "targets sharing the right block, N<=5, thorough also 6); every reply is judged like a compile_target reply AND must equal what a fresh compiler "
+        "(and the model, a pure function) answers. EXACT correspondence of compile_target with the Lean model of the whole search (Model/CompilerSearch.lean: same sequence or same exception "
+        "type raised by the same function) on every compile line below; the committed list of failing targets (N<=4 quick, N<=5 thorough) must be "
+        "what the model produces, kind by kind (stream listed-failures-reproduced-by-model); a failure at N>=6 is a known finding only if the model "
+        "does exactly what the implementation did and the verified validator gives the same kind on the model's output; the search helpers "
+        "(left_map_over_a, subsystem_compiler, factor_w_orders, _candidate_decompositions, _bfs_case3 with caps, _case3_best_reordering on blocks "
+        "where each of its four phases succeeds, the interleaving generators with their caps) compared one by one. "
+        "compile_target run on ALL 4^N-1 targets for N<=4 (thorough N<=5), every 2<=k<N, plus seeded samples at N=5 (quick) and 6<=N<=8 "
         "(W=I / V=I / generic targets); EVERY returned sequence is judged by the Lean validator validSeq (compiled model) and, for N<=4, "
         "cross-checked with a dense numpy nested commutator and the universal set as printed by the implementation. Correspondence of "
         "_nested_commutator_result / public nested evaluation / _sequence_to_paulie_orientation / validator on non-commuting walks inside the "
@@ -167,9 +186,16 @@ RULE = ("compile_target run on ALL 4^N-1 targets for N<=4 (thorough N<=5), every
 
 def main(tier):
     return standard_main(PID, tier, "other", THEOREMS, IMPORTS, build_streams, known_match=known_match, rule=RULE,
-        assumptions=["the search procedures of the compiler (subsystem_compiler, left_map_over_a, _case3_best_reordering, _bfs_case3, compile) are NOT "
-                     "modelled; the property is decided per returned sequence by the validator whose meaning (non-empty, inside the universal set, nested "
-                     "matrix commutator = c*M(target), c != 0) is proved in Lean for all N, k",
+        assumptions=["the search procedures of the compiler (subsystem_compiler, left_map_over_a, _case3_best_reordering, _bfs_case3, compile, compile_target) "
+                     "are modelled exactly (tie: correspondence on all targets N<=4/5 and the samples to N=8); the property is decided per returned sequence by the "
+                     "validator whose meaning (non-empty, inside the universal set, nested matrix commutator = c*M(target), c != 0) is proved in Lean for all N, k",
+                     "proved for all inputs about the model: a sequence returned through a VERIFIED return of compile (W=I; the three candidates of V!=I; "
+                     "_case3_best_reordering) is non-empty and its nested commutator reads as the target (never zero, never another string) — C05_verified_return; in "
+                     "the W=I branch it is Valid (C05_wI_valid). NOT proved: membership in the universal set for the verified returns of V!=I / V=I (subsystem_compiler "
+                     "may insert helpers; no such case for N<=6); anything about the unverified returns and _bfs_case3, where all recorded failures arise",
+                     "the verified candidates 1, 2 of the V!=I branch and phases 2-4 of _case3_best_reordering never produce the returned sequence on ANY of the 16380 "
+                     "(k, target) pairs with N=6 nor on any target with N<=5 (model census): inside compile they are exercised only on their failing path; their "
+                     "succeeding paths are tied by the search-helpers stream",
                      "the property is FALSE on the current tree (C05_refuted); the failing targets are recorded findings (complete list for N<=5, "
                      "(branch, kind) signatures above)"])
 
@@ -177,7 +203,14 @@ def replay(path):
     r = json.load(open(path)); line = r.get("line")
     out = impl_compiler.handle(line)
     print("line:", line); print("implementation:", out)
-    if line.startswith("compile "):
+    div = 0
+    if line.startswith("ccompile "):
+        m = run_model([line])[0]
+        print("model (= fresh compiler per target):", m)
+        div = 1 if m != out else 0
+        why = ccompile_oracle(PID)([line], [out])[0]
+    elif line.startswith("compile "):
+        div = replay_compile(line, out)
         why = batch_oracle_compile([line], [out])[0]
     else:
         print("model:", run_model([line])[0])
@@ -185,4 +218,5 @@ def replay(path):
     print("oracle:", why or "holds")
     if why and known_match("replay", line, why) and known_lookup(PID, known_match("replay", line, why)):
         print("known finding:", known_match("replay", line, why))
-    return 1 if why else 0
+        return div
+    return 1 if (why or div) else 0
